@@ -149,6 +149,7 @@ type vProxyPlan struct {
 	hijack        bool          // upgraded connection (hijacked at once)
 	hijackLate    bool          // the upgrade completes only after `service`
 	upgradeHeader bool          // the request merely carries an Upgrade header (no upgrade happens)
+	cookie        bool          // the request carries the rollout cookie (value "x")
 }
 
 var vProxyPlans = map[int]*vProxyPlan{} // by request number
@@ -263,6 +264,9 @@ func vDoRequest(h http.Handler, n int, host, path string) {
 		req.Header["Upgrade"] = []string{"h2c"}
 		req.Header["Connection"] = []string{"Upgrade"}
 	}
+	if p := vProxyPlans[n]; p != nil && p.cookie {
+		req.Header["Cookie"] = []string{RolloutCookieName + "=x"}
+	}
 	vEmit(vEvent{kind: "arrive", req: n})
 	h.ServeHTTP(rw, req)
 	w.finish()
@@ -271,11 +275,14 @@ func vDoRequest(h http.Handler, n int, host, path string) {
 	vEmit(vEvent{kind: "respond", req: n, status: w.status, note: string(w.body)})
 }
 
+// vInstall: Router.installService through vCallMethod; true when it reported no error.
+func vInstall(r *Router, s *Service) bool { return vCallMethod(r, "installService", s) == nil }
+
 // wrappers that put the deploy's internal steps on the trace (a stub may call the function it replaces)
 
 //verif:stub (*github.com/basecamp/kamal-proxy/internal/server.Router).installService harness=HarnessDeployGate,HarnessRolloutDeployGate,HarnessRedeployTraffic,HarnessDrainQuiescent,HarnessDrainQuiescentDirected,HarnessPauseHold,HarnessPauseHoldDirected,HarnessNoProbesAfter,HarnessFailAtomic,HarnessCmdMix
 func stubInstallServiceTraced(r *Router, s *Service) error {
-	err := r.installService(s)
+	err, _ := vCallMethod(r, "installService", s).(error)
 	vEmit(vEvent{kind: "swap", ok: err == nil})
 	return err
 }
